@@ -32,7 +32,8 @@ def isclose (a b : Float) : Bool := Float.abs (a - b) <= 1e-8 + 1e-5 * Float.abs
 def fn : Fn Float :=
   { sqrt := Float.sqrt, asin := Float.asin, abs := Float.abs, close := isclose,
     tol := 1e-8, eps := 1e-12,
-    normalize := normalizeBy Float.sqrt, samePt := samePtBy isclose }
+    normalize := normalizeBy Float.sqrt, samePt := samePtBy isclose,
+    nearPt := nearPtBy Float.sqrt 1e-8 }
 
 def variantOf : Nat → Variant | 0 => .asIs | _ => .repaired
 
